@@ -153,7 +153,9 @@ func flight1Generate(
 		cfg.Log.Tracef("[handshake] try to resume session")
 		if id, secret, err := cfg.GetSession(conn.SessionKey()); err != nil {
 			return nil, &alert.Alert{Level: alert.Fatal, Description: alert.InternalError}, err
-		} else if id != nil {
+		} else if len(id) != 0 && len(secret) != 0 {
+			// A record without an ID or without a secret is no session,
+			// however the store spells "not found".
 			cfg.Log.Tracef("[handshake] get saved session: %x", id)
 
 			state.SessionID = id
